@@ -46,9 +46,32 @@ static void copy_gid(wrec *w, const matrix *gid, int nobj){
   for(int i = 0; i < w->g && i < MAXG; i++) for(int j = 0; j < w->w && j < MAXN; j++) w->gid[i][j] = (int)gid->data[i][j];
   memset(w->ntrain, 0, sizeof(w->ntrain)); memset(w->ntest, 0, sizeof(w->ntest)); memset(w->split_seen, 0, sizeof(w->split_seen));
 }
+static void emit_intlist(char *buf, int *p, size_t cap, const int *v, int n);
+/* LeaveOneOut row routing (hooks loo_train / loo_test, orchestrator thread) and the bootstrap's own visit counter (boot_counter) */
+static int loo_ntr[MAXN], loo_tr[MAXN][MAXN], loo_pos[MAXN][MAXN], loo_nte[MAXN], loo_te[MAXN][4], loo_any = 0;
+static long bc_cnt[MAXN], bc_iters[MAXN]; static int bc_seen[MAXN], bc_any = 0;
+static void rec_reset(void){ memset(loo_ntr, 0, sizeof loo_ntr); memset(loo_nte, 0, sizeof loo_nte); loo_any = 0; memset(bc_seen, 0, sizeof bc_seen); bc_any = 0; }
+/* lock-step (stress mode): the workers of a batch meet at the LAST row-copy event of every group, i.e. as late as the hooks allow before the fit and
+ * the accumulation of that group's predictions - a legal schedule that makes unsynchronised shared accumulators collide far more often */
+static int lockstep = 0, bar_n = 0; static volatile int bar_count = 0, bar_gen = 0;
+static void bar_wait(void){
+  int gen = __atomic_load_n(&bar_gen, __ATOMIC_SEQ_CST);
+  if(__atomic_add_fetch(&bar_count, 1, __ATOMIC_SEQ_CST) >= bar_n){ __atomic_store_n(&bar_count, 0, __ATOMIC_SEQ_CST); __atomic_add_fetch(&bar_gen, 1, __ATOMIC_SEQ_CST); }
+  else { long spins = 0; while(__atomic_load_n(&bar_gen, __ATOMIC_SEQ_CST) == gen){ if(++spins > 4000000L) break; if((spins & 255) == 0) sched_yield(); } }
+}
 static void cv_cb(const char *ev, size_t a, size_t b, size_t c, const void *data){
+  int arrive = 0;
   pthread_mutex_lock(&hmu);
-  if(!strcmp(ev, "groups")){            /* a = seed, b = ngroups, c = nobj, data = gid : a NEW worker pass */
+  if(!strcmp(ev, "loo_train")){         /* a = model (left-out object), b = row id copied, c = position in the training part */
+    if(a < MAXN && loo_ntr[a] < MAXN){ loo_tr[a][loo_ntr[a]] = (int)b; loo_pos[a][loo_ntr[a]] = (int)c; loo_ntr[a]++; loo_any = 1; }
+  }
+  else if(!strcmp(ev, "loo_test")){     /* a = model, b = row id routed to the test part */
+    if(a < MAXN && loo_nte[a] < 4){ loo_te[a][loo_nte[a]++] = (int)b; loo_any = 1; }
+  }
+  else if(!strcmp(ev, "boot_counter")){ /* a = object, b = the routine's own visit counter, c = requested iterations */
+    if(a < MAXN){ bc_cnt[a] = b > 2000000000UL ? 2000000000L : (long)b; bc_iters[a] = (long)c; bc_seen[a]++; bc_any = 1; }
+  }
+  else if(!strcmp(ev, "groups")){            /* a = seed, b = ngroups, c = nobj, data = gid : a NEW worker pass */
     wrec *w = slot_for(pthread_self(), 1);
     if(w){ w->seed = (long)a; copy_gid(w, (const matrix*)data, (int)c); }
   }
@@ -63,9 +86,11 @@ static void cv_cb(const char *ev, size_t a, size_t b, size_t c, const void *data
       w->split_seen[a] = 1;
       if(ev[1] == 'r'){ if(w->ntrain[a] < MAXN) w->train[a][w->ntrain[a]++] = (int)b; }
       else { if(w->ntest[a] < MAXN) w->test[a][w->ntest[a]++] = (int)b; }
+      if(lockstep && w->seed >= 0 && w->ntrain[a] + w->ntest[a] == w->n) arrive = 1;
     }
   }
   else if(!strcmp(ev, "create") || !strcmp(ev, "loo_create") || !strcmp(ev, "kf_create")){
+    if(lockstep && a == 0){ __atomic_store_n(&bar_count, 0, __ATOMIC_SEQ_CST); }
     VRT_EMIT("{\"e\":\"Create\",\"th\":%zu,\"base\":%zu}", a, b);
   }
   else if(!strcmp(ev, "join") || !strcmp(ev, "loo_join") || !strcmp(ev, "kf_join")){
@@ -75,6 +100,17 @@ static void cv_cb(const char *ev, size_t a, size_t b, size_t c, const void *data
     VRT_EMIT("{\"e\":\"Merge\",\"th\":%zu,\"base\":%zu}", a, b);
   }
   pthread_mutex_unlock(&hmu);
+  if(arrive) bar_wait();
+}
+static void emit_loo_and_counter(int n){
+  static char buf[16384];
+  if(loo_any) for(int m = 0; m < n && m < MAXN; m++){ int p = 0;
+    p += snprintf(buf + p, sizeof(buf) - p, "{\"e\":\"LooSplit\",\"m\":%d,\"train\":", m); emit_intlist(buf, &p, sizeof(buf), loo_tr[m], loo_ntr[m]);
+    p += snprintf(buf + p, sizeof(buf) - p, ",\"pos\":"); emit_intlist(buf, &p, sizeof(buf), loo_pos[m], loo_ntr[m]);
+    p += snprintf(buf + p, sizeof(buf) - p, ",\"test\":"); emit_intlist(buf, &p, sizeof(buf), loo_te[m], loo_nte[m]);
+    p += snprintf(buf + p, sizeof(buf) - p, "}"); VRT_EMIT("%s", buf); }
+  if(bc_any) for(int i = 0; i < n && i < MAXN; i++)
+    VRT_EMIT("{\"e\":\"Counter\",\"i\":%d,\"cnt\":%ld,\"iters\":%ld,\"fired\":%d}", i, bc_seen[i] ? bc_cnt[i] : -1L, bc_seen[i] ? bc_iters[i] : -1L, bc_seen[i]);
 }
 
 static void emit_intlist(char *buf, int *p, size_t cap, const int *v, int n){
@@ -109,7 +145,7 @@ enum { A_PLS = 0, A_MLR = 1, A_LDA = 2 };
 static const char *ANAME[3] = {"PLS", "MLR", "LDA"};
 static AlgorithmType ATYPE[3] = {_PLS_, _MLR_, _LDA_};
 typedef struct { int algo, n, p, ny, nlv, xs, ys, k, dcls, mag; matrix *x, *y; } prob;
-typedef struct { int id, hist, reuse, sensall, nproc, lost; matrix *pred, *res; } copts;   /* pred/res != NULL: outputs supplied by the caller (history) */
+typedef struct { int id, hist, reuse, sensall, nproc, lost, lockstep; matrix *pred, *res; } copts;   /* pred/res != NULL: outputs supplied by the caller (history) */
 
 static void rows_of(matrix *src, const int *ids, int n, matrix *dst){
   ResizeMatrix(dst, n, src->col);
@@ -144,7 +180,8 @@ typedef struct { prob *P; cvcfg *C; vrng *R; copts *O; } childarg;
 static void do_case(prob *P, cvcfg *C, vrng *R, copts *O){
   vrt_install_iter_budget(200000, 0);
   vrt_force_nproc(O->nproc > 0 ? O->nproc : 1);
-  libsci_verif_cv = cv_cb; nW = 0;
+  libsci_verif_cv = cv_cb; nW = 0; rec_reset();
+  lockstep = O->lockstep; bar_n = C->nth; bar_count = 0;
   relfloor = P->mag < 0 ? pow(10.0, P->mag) : 1.0;
   double yscale = pow(10.0, P->mag);
   int scol = P->algo == A_PLS ? P->ny * P->nlv : P->ny;
@@ -152,15 +189,15 @@ static void do_case(prob *P, cvcfg *C, vrng *R, copts *O){
   if(C->scheme == 2){ int mx = 0; for(int i = 0; i < P->n; i++) if(C->lab[i] > mx) mx = C->lab[i]; total = mx + 1; }
   { static char buf[4096]; int p = 0;
     p += snprintf(buf + p, sizeof(buf) - p, "{\"e\":\"Run\",\"scheme\":\"%s\",\"algo\":\"%s\",\"n\":%d,\"p\":%d,\"ny\":%d,\"nlv\":%d,\"xs\":%d,\"ys\":%d,\"groups\":%d,\"nth\":%d,\"total\":%d,\"scol\":%d,"
-                  "\"iters\":%d,\"k\":%d,\"dcls\":%d,\"mag\":%d,\"sensall\":%d,\"hist\":%d,\"reuse\":%d,\"nproc\":%d,\"case\":%d,\"lab\":",
+                  "\"iters\":%d,\"k\":%d,\"dcls\":%d,\"mag\":%d,\"sensall\":%d,\"hist\":%d,\"reuse\":%d,\"nproc\":%d,\"case\":%d,\"lockstep\":%d,\"lab\":",
                   SNAME[C->scheme], ANAME[P->algo], P->n, P->p, P->ny, P->algo == A_PLS ? P->nlv : 1, P->xs, P->ys, C->groups, C->nth, total, scol,
-                  C->scheme == 0 ? C->iters : 1, P->algo == A_LDA ? P->k : 0, P->dcls, P->mag, O->sensall, O->hist, O->reuse, O->nproc > 0 ? O->nproc : 1, O->id);
+                  C->scheme == 0 ? C->iters : 1, P->algo == A_LDA ? P->k : 0, P->dcls, P->mag, O->sensall, O->hist, O->reuse, O->nproc > 0 ? O->nproc : 1, O->id, O->lockstep);
     emit_intlist(buf, &p, sizeof(buf), C->lab, C->scheme == 2 ? P->n : 0);
     p += snprintf(buf + p, sizeof(buf) - p, "}"); VRT_EMIT("%s", buf); }
   matrix *pred, *res; int own = O->pred == NULL;
   if(own){ initMatrix(&pred); initMatrix(&res); } else { pred = O->pred; res = O->res; }
   run_cv(P, P->y, C, pred, res);
-  libsci_verif_cv = NULL;
+  libsci_verif_cv = NULL; lockstep = 0;
   /* the caller's output objects must have survived the call (an output sized for ANOTHER shape has to be resized in place) */
   { int pf = OBJ_FREED(pred), rf = OBJ_FREED(res);
     VRT_EMIT("{\"e\":\"Out\",\"pred_freed\":%d,\"res_freed\":%d}", pf, rf);
@@ -168,6 +205,7 @@ static void do_case(prob *P, cvcfg *C, vrng *R, copts *O){
   /* folds as the code really made them */
   int nworkers = nW;
   for(int i = 0; i < nworkers; i++) if(W[i].have_groups) emit_groups_and_splits(&W[i]);
+  emit_loo_and_counter(P->n);
   /* expected prediction: refit through the public API on exactly the logged training ids */
   matrix *expct; NewMatrix(&expct, P->n, scol); int cnt[MAXN]; memset(cnt, 0, sizeof(cnt));
   if(C->scheme == 1){
@@ -313,7 +351,7 @@ static int child_helpers(void *a_){
     DelMatrix(&x0); DelMatrix(&y0); }
   libsci_verif_cv = cv_cb; nW = 0;
   for(int i = 0; i < n; i++){ x->data[i][0] = i; x->data[i][1] = 1000 + i; y->data[i][0] = -i; }
-  VRT_EMIT("{\"e\":\"Run\",\"scheme\":\"helpers\",\"algo\":\"none\",\"n\":%d,\"p\":2,\"ny\":1,\"nlv\":1,\"xs\":0,\"ys\":0,\"groups\":%d,\"nth\":1,\"total\":0,\"scol\":1,\"iters\":1,\"k\":0,\"dcls\":0,\"mag\":0,\"sensall\":0,\"hist\":%d,\"reuse\":%d,\"nproc\":1,\"case\":-1,\"lab\":[]}", n, g, reuse, reuse);
+  VRT_EMIT("{\"e\":\"Run\",\"scheme\":\"helpers\",\"algo\":\"none\",\"n\":%d,\"p\":2,\"ny\":1,\"nlv\":1,\"xs\":0,\"ys\":0,\"groups\":%d,\"nth\":1,\"total\":0,\"scol\":1,\"iters\":1,\"k\":0,\"dcls\":0,\"mag\":0,\"sensall\":0,\"hist\":%d,\"reuse\":%d,\"nproc\":1,\"case\":-1,\"lockstep\":0,\"lab\":[]}", n, g, reuse, reuse);
   random_kfold_group_generator(gid, g, n, &seed);
   int rows_ok = 1;
   for(int q = 0; q < g; q++){
@@ -366,6 +404,27 @@ static int child_tts(void *a_){
   snprintf(buf + q, sizeof buf - q, "],\"rows\":%d,\"reuse\":%d}", rows_ok, reuse);
   VRT_EMIT("%s", buf);
   DelMatrix(&x); DelMatrix(&y); DelMatrix(&xt); DelMatrix(&yt); DelMatrix(&xs); DelMatrix(&ys); DelUIVector(&ids);
+  return 0;
+}
+
+/* ---------------- stress mode: lock-step bootstrap calls, several per process ---------------- */
+typedef struct { int from, to; long seed; } stressarg;
+static void stress_case(int t, prob *P, cvcfg *C, vrng *R){
+  int algo = t % 3 == 2 ? A_MLR : A_PLS, n = 6 + (t % 2), groups = algo == A_MLR ? 3 : 2 + (t % 2);
+  memset(C, 0, sizeof(*C)); C->scheme = 0; C->nth = 8 - (t % 4 == 3); C->iters = 12; C->groups = groups;
+  if(algo == A_MLR) n = 7 + (t % 2);          /* MLR: p = 1 <= smallest training set - 3 */
+  gen_problem_ex(P, R, algo, n, 1, 1 + t % 2, 1, t % 2, 0, -1, 0);
+}
+static int child_stress(void *a_){
+  stressarg *A = (stressarg*)a_;
+  for(int t = A->from; t < A->to; t++){
+    vrng R = { ((uint64_t)A->seed * 0x9E3779B97F4A7C15ULL) ^ ((uint64_t)(t + 1) * 0xD1B54A32D192ED03ULL) };
+    prob P; cvcfg C; stress_case(t, &P, &C, &R);
+    VRT_EMIT("{\"e\":\"Reset\"}");
+    copts O; memset(&O, 0, sizeof(O)); O.id = -1; O.nproc = 1; O.lockstep = 1;
+    do_case(&P, &C, &R, &O);
+    free_problem(&P);
+  }
   return 0;
 }
 
@@ -422,7 +481,7 @@ int main(int argc, char **argv){
       if(ceil((double)k / 8.0 * n) >= n) continue;        /* an empty training part is outside the property's domain */
       int a[5] = {n, k, 8, (int)(seed % 100000) + 17 * n + 3 * k + sd, sd};
       VRT_EMIT("{\"e\":\"Reset\"}");
-      VRT_EMIT("{\"e\":\"Run\",\"scheme\":\"tts\",\"algo\":\"none\",\"n\":%d,\"p\":2,\"ny\":2,\"nlv\":1,\"xs\":0,\"ys\":0,\"groups\":0,\"nth\":1,\"total\":0,\"scol\":1,\"iters\":1,\"k\":0,\"dcls\":0,\"mag\":0,\"sensall\":0,\"hist\":%d,\"reuse\":%d,\"nproc\":1,\"case\":-1,\"lab\":[]}", n, sd, sd);
+      VRT_EMIT("{\"e\":\"Run\",\"scheme\":\"tts\",\"algo\":\"none\",\"n\":%d,\"p\":2,\"ny\":2,\"nlv\":1,\"xs\":0,\"ys\":0,\"groups\":0,\"nth\":1,\"total\":0,\"scol\":1,\"iters\":1,\"k\":0,\"dcls\":0,\"mag\":0,\"sensall\":0,\"hist\":%d,\"reuse\":%d,\"nproc\":1,\"case\":-1,\"lockstep\":0,\"lab\":[]}", n, sd, sd);
       int rc = vrt_run_child(child_tts, a, 60);
       if(rc != 0) VRT_EMIT("{\"e\":\"Crash\",\"rc\":%d,\"scheme\":\"tts\",\"algo\":\"none\",\"n\":%d,\"p\":2,\"ny\":2,\"nlv\":1,\"groups\":%d,\"iters\":1,\"nth\":1}", rc, n, k);
       else VRT_EMIT("{\"e\":\"End\",\"workers\":0,\"shape\":1}");
@@ -446,6 +505,16 @@ int main(int argc, char **argv){
       if(rc != 0){ /* the failing case is the one whose block is open: report the first of the chain (its Run line is in the trace) */
         prob P; cvcfg C; vrng R2; case_setup(&cs[i], seed, &P, &C, &R2); emit_crash(rc, &P, &C); free_problem(&P); }
       i = j;
+    }
+  }
+  else if(!strcmp(mode, "stress")){
+    /* ncases repeated bootstrap calls with 8 workers in lock-step on the smallest problems of the quantifier: accumulators that the workers share
+       without synchronisation lose an update sooner or later; the routine's own visit counter (hook boot_counter) then differs from the number of
+       passes in which the object sat in a test fold (known from the logged fold matrices), whatever the predicted values are */
+    for(int t0 = 0; t0 < ncases; t0 += 12){
+      stressarg A = { t0, t0 + 12 < ncases ? t0 + 12 : ncases, seed };
+      int rc = vrt_run_child(child_stress, &A, 240);
+      if(rc != 0){ prob P; cvcfg C; vrng R2 = R; stress_case(t0, &P, &C, &R2); emit_crash(rc, &P, &C); free_problem(&P); }
     }
   }
   else if(!strcmp(mode, "labels")){
